@@ -380,7 +380,8 @@ def gen_literal(rnd: random.Random, dirty: bool, multiline_ok=True, indent="", c
     return prefix + q * 3 + body + q * 3
 
 
-def gen_module(rnd: random.Random, dirty: bool = True, odd_indent: bool = True, cont: bool = True) -> str:
+def gen_module(rnd: random.Random, dirty: bool = True, odd_indent: bool = True, cont: bool = True,
+               dirty_lit: bool = True) -> str:
     """A valid module in the style pyrefact leaves alone (no rule fires on the clean variants), with literal
     slots, comments, blank-line runs, trailing blanks, long lines and (odd_indent) unusual indentation."""
     counter = itertools.count()
@@ -391,7 +392,7 @@ def gen_module(rnd: random.Random, dirty: bool = True, odd_indent: bool = True, 
         return rnd.choice(["    ", "    ", "    ", "\t", "  ", "   ", "        ", "\t ", "\t\t", "\t  "])
 
     def L(ind="", ml=True):
-        return gen_literal(rnd, dirty, ml, ind, cont)
+        return gen_literal(rnd, dirty and dirty_lit, ml, ind, cont)
 
     def trail():
         return rnd.choice(["", "", "", " ", "  ", "\t", " \t"]) if dirty else ""
@@ -430,7 +431,8 @@ def gen_module(rnd: random.Random, dirty: bool = True, odd_indent: bool = True, 
         if kind == 5:
             return f"Z{k} = {{{L(ml=False)}: W, \"k\": [1, {L()}]}}{trail()}\nprint(Z{k})\n"
         if kind == 6:
-            doc = rnd.choice(["Doc.", "Doc.", "Doc. \n" + u + "more\t x\n\n\n" + u + "end.\n" + u]) if dirty else "Doc."
+            doc = (rnd.choice(["Doc.", "Doc.", "Doc. \n" + u + "more\t x\n\n\n" + u + "end.\n" + u])
+                   if dirty and dirty_lit else "Doc.")
             return (f"class _A{k}:\n{u}\"\"\"{doc}\"\"\"\n\n{u}def __init__(self, q):\n{u}{u}self.q = q{trail()}\n\n"
                     f"{u}def m(self, r):\n{inner_blank()}{u}{u}return self.q + r + {L(u + u)}\n\n\nprint(_A{k}(W).m(W))\n")
         if kind == 7:
@@ -781,7 +783,7 @@ def check(run: common.Run):
         modules += ALL_FIXED
         nmod = 120 if quick else 1500
         for i in range(nmod):
-            modules.append(gen_module(rnd, dirty=True, odd_indent=rnd.random() < 0.6))
+            modules.append(gen_module(rnd, dirty=True, odd_indent=rnd.random() < 0.6, dirty_lit=i % 3 != 0))
         citems, cinfo = [], []
         n_masked = 0
         for s in modules:
